@@ -97,7 +97,16 @@ def partial_sites(f):
                 # containment fact: on the path the same string is known to start/end with (or contain) a literal that contains the needle
                 recv, needle = unparse(n.func.value), n.args[0].value
                 fact = False
-                for t, p, k in path_condition(n):
+                # filters of an enclosing comprehension hold for the element expression
+                comp_conds = []
+                q = n
+                while q is not None and not isinstance(q, (ast.FunctionDef, ast.stmt)):
+                    par = getattr(q, '_parent', None)
+                    if isinstance(par, (ast.ListComp, ast.SetComp, ast.GeneratorExp, ast.DictComp)) and q is not par.generators[0]:
+                        for g in par.generators:
+                            comp_conds.extend((c, True, 'comp') for c in g.ifs)
+                    q = par
+                for t, p, k in list(path_condition(n)) + comp_conds:
                     for c in ast.walk(t):
                         if p and isinstance(c, ast.Call) and isinstance(c.func, ast.Attribute) and c.func.attr in ('startswith', 'endswith') and unparse(c.func.value) == recv and c.args and isinstance(c.args[0], ast.Constant) \
                                 and isinstance(c.args[0].value, str) and needle in c.args[0].value and _conjunct_of(c, t):
